@@ -187,6 +187,15 @@ CHECKS = {
             "(clang) explores further with the same contract asserted in the driver.",
             "Trusted: harness and driver; the first 50 messages per compilation are inspected.",
             "DESIGN.md section 2, C07"),
+    "C06": ("exploration",
+            "sanitizers (ASan+UBSan+LSan) and CPU watchdog over structure-aware sweeps and coverage-guided fuzzing (libFuzzer), with an introspection-generated rule set",
+            "A rule set generated from every module's declaration tree reads every field, iterates every array and "
+            "dictionary and calls every function overload; real PE/ELF/.NET/Mach-O/DEX seeds, their prefixes, "
+            "boundary-value overwrites of header fields and random data are scanned under ASan+UBSan+LSan with a CPU "
+            "watchdog, then libFuzzer explores from the same corpus. No functional oracle.",
+            "Trusted: gcc/clang sanitizers (red-zone limits apply); macho and dex are compiled in by the verification "
+            "build although the default configure leaves them out.",
+            "DESIGN.md section 2, C06"),
 }
 
 NOT_YET = "check not built yet in this round (planned in DESIGN.md section 2); nothing is claimed for it"
